@@ -23,6 +23,18 @@ import FFVerif.Lemmas.CacheTraceAux
 namespace FFVerif.C18
 open FFVerif FFVerif.Model.Cache FFVerif.C07
 
+theorem infidelityCorrT_last (tl idc : Bool) (s : Obj) :
+    (infidelityCorrT tl s).getLast? = some (infidelityCorr tl idc s).1 := by
+  unfold infidelityCorrT infidelityCorr
+  cases tl
+  · rfl
+  · simp only [↓reduceIte]
+    exact getLast?_cons_of _ _ _ (getLast?_append_of _ _ _ rfl)
+
+theorem infidelityCorrT_head (tl : Bool) (s : Obj) :
+    (infidelityCorrT tl s).head? = some s := by
+  unfold infidelityCorrT; cases tl <;> rfl
+
 /-- **The trace ends in the state of the step model**: the list of raise points of every operation
 is consistent with the state machine whose final states the harness compares with Python. -/
 theorem trace_last (s : Obj) (op : Op) : (trace s op).getLast? = some (step s op).1 := by
@@ -45,12 +57,12 @@ theorem trace_last (s : Obj) (op : Op) : (trace s op).getLast? = some (step s op
   | deriv g =>
     show (derivT g s).getLast? = some (deriv g s).1
     unfold derivT deriv
-    exact getLast?_cons_of _ _ _ (getLast?_append_of _ _ _ rfl)
+    exact getLast?_cons_of _ _ _ (getLast?_append_of _ _ _ (needEigT_last _))
   | totPropL => exact totPropLT_last s
   | eigAccess => exact needEigT_last s
   | totPropAccess => exact needTotPropT_last s
   | cleanup m => rfl
-  | infidelity g tl corr =>
+  | infidelity g tl corr idc =>
     unfold trace step
     cases corr
     · simp only [Bool.false_eq_true, ↓reduceIte]
@@ -64,10 +76,10 @@ theorem trace_last (s : Obj) (op : Op) : (trace s op).getLast? = some (step s op
       | some h =>
         by_cases hh : (h == g) = true
         · simp only [hh, ↓reduceIte]
-          exact getLast?_cons_of _ _ _ (getLast?_append_of _ _ _ rfl)
+          exact infidelityCorrT_last tl idc s
         · simp only [hh, Bool.false_eq_true, ↓reduceIte]
           rfl
-      | none => exact getLast?_cons_of _ _ _ (getLast?_append_of _ _ _ rfl)
+      | none => exact infidelityCorrT_last tl idc s
   | decayAmps g corr ci => exact decayAmpsT_last g corr ci s
   | cumulant g so =>
     unfold trace step
@@ -111,14 +123,16 @@ theorem trace_head (s : Obj) (op : Op) : (trace s op).head? = some s := by
     · exact head?_append_of _ _ _ (needTotPropT_head s)
   | eigAccess => exact needEigT_head s
   | totPropAccess => exact needTotPropT_head s
-  | infidelity g tl corr =>
+  | infidelity g tl corr idc =>
     unfold trace
     cases corr
     · cases tl <;> rfl
     · simp only [↓reduceIte]
       split
-      · split <;> rfl
-      · rfl
+      · split
+        · exact infidelityCorrT_head tl s
+        · rfl
+      · exact infidelityCorrT_head tl s
   | decayAmps g corr ci =>
     show (decayAmpsT g corr ci s).head? = _
     unfold decayAmpsT
@@ -183,11 +197,11 @@ theorem abort_preserves_Inv (s : Obj) (op : Op) (h : Inv s) : ∀ s' ∈ trace s
   | deriv g =>
     change s' ∈ derivT g s at hs
     unfold derivT at hs
-    simp only [List.mem_cons, List.mem_append, List.not_mem_nil, or_false] at hs
-    rcases hs with rfl | hs | rfl
+    simp only [List.mem_cons, List.mem_append] at hs
+    rcases hs with rfl | hs | hs
     · exact h
     · exact getCMT_inv g true s h s' hs
-    · exact (getCM_spec g true s h).1.1
+    · exact (needEigT_same _ s' hs).inv (getCM_spec g true s h).1.1
   | totPropL => exact (totPropLT_same s s' hs).inv h
   | eigAccess => exact (needEigT_same s s' hs).inv h
   | totPropAccess => exact (needTotPropT_same s s' hs).inv h
@@ -197,15 +211,21 @@ theorem abort_preserves_Inv (s : Obj) (op : Op) (h : Inv s) : ∀ s' ∈ trace s
     rcases hs with rfl | rfl
     · exact h
     · exact inv_cleanup m _ h
-  | infidelity g tl corr =>
+  | infidelity g tl corr idc =>
     unfold trace at hs
-    have hpc : ∀ s' ∈ s :: (getPcFFT .fidelity s ++ [(getPcFF .fidelity s).1]), Inv s' := by
+    have hpc : ∀ s' ∈ infidelityCorrT tl s, Inv s' := by
       intro s' hs
-      simp only [List.mem_cons, List.mem_append, List.not_mem_nil, or_false] at hs
-      rcases hs with rfl | hs | rfl
-      · exact h
-      · exact getPcFFT_inv _ s h s' hs
-      · exact inv_getPcFF _ s h
+      unfold infidelityCorrT at hs
+      cases tl
+      · simp only [Bool.false_eq_true, ↓reduceIte, List.mem_cons, List.not_mem_nil,
+          or_false] at hs
+        subst hs; exact h
+      · simp only [↓reduceIte, List.mem_cons, List.mem_append, List.not_mem_nil,
+          or_false] at hs
+        rcases hs with rfl | hs | rfl
+        · exact h
+        · exact getPcFFT_inv _ s h s' hs
+        · exact inv_getPcFF _ s h
     cases corr
     · simp only [Bool.false_eq_true, ↓reduceIte] at hs
       cases tl
@@ -387,7 +407,7 @@ def demoFailures : List (Op × Outcome) :=
   [(.getCM 1 true, .raisedAt 3), (.getFF 2 .generalized true false, .raisedAt 4),
    (.getFF 2 .fidelity false true, .done), (.cacheCM 3 false, .raisedAt 2),
    (.cumulant 1 true, .raisedAt 9), (.deriv 4, .raisedAt 5), (.cleanup .greedy, .done),
-   (.infidelity 2 true false, .raisedAt 7)]
+   (.infidelity 2 true false false, .raisedAt 7)]
 
 example : (step (runWithFailures {} demoFailures) (.getFF 5 .generalized true false)).2
     = .val 5 true := by decide
